@@ -91,7 +91,7 @@ inductive St where
   | stW (t : STimerW)
   /-- `timer_manager_basic<timer_spec<T>>` for a `w`-bit integral `T` (`sgn`: signed); every tick value of
   the op lines is moved by `off` before it is truncated to `w` bits -/
-  | mgrN (w : Nat) (sgn : Bool) (off : Int) (n : Nat) (m : MgrN w) (cur : BitVec w)
+  | mgrN (w : Nat) (sgn : Bool) (tsg : Bool) (off : Int) (n : Nat) (m : MgrN w) (cur : BitVec w)
   /-- four `igris::delegate<void, int>` objects -/
   | dlg (slots : List Dlg)
 
@@ -225,9 +225,9 @@ def stepMgrW (n : Nat) (m : MgrW) (cur : W32) (op : String) (args : List String)
 def showTick {w : Nat} (sgn : Bool) (x : BitVec w) : String :=
   if sgn then toString x.toInt else toString x.toNat
 
-def summaryN {w : Nat} (sgn : Bool) (n : Nat) (m : MgrN w) (cur : BitVec w) : String :=
+def summaryN {w : Nat} (sgn tsg : Bool) (n : Nat) (m : MgrN w) (cur : BitVec w) : String :=
   let ts := (List.range n).map fun i =>
-    showTick sgn (m.tm i).finish ++ "/" ++ (if i ∈ m.lst then "1" else "0")
+    showTick tsg (m.tm i).finish ++ "/" ++ (if i ∈ m.lst then "1" else "0")
   "t=" ++ ",".intercalate ts ++ " e=" ++ (if m.empty then "1" else "0") ++ " m=" ++
     (match m.minimalInterval cur with | some d => showTick sgn d | none => "-")
 
@@ -244,30 +244,30 @@ def cbOffN (w : Nat) (off : Int) (cb : Cb) : CbN w := fun k i =>
     | .unplan j => ActionN.unplan j
     | .plan j s iv => ActionN.plan j (wrN w (s + off)) (wrN w iv)
 
-def stepMgrN (w : Nat) (sgn : Bool) (off : Int) (n : Nat) (m : MgrN w) (cur : BitVec w) (op : String)
+def stepMgrN (w : Nat) (sgn tsg : Bool) (off : Int) (n : Nat) (m : MgrN w) (cur : BitVec w) (op : String)
     (args : List String) : Option (St × String) :=
   let ret (m' : MgrN w) (cur' : BitVec w) (s : String) : Option (St × String) :=
-    some (.mgrN w sgn off n (compactN n m') cur', s)
+    some (.mgrN w sgn tsg off n (compactN n m') cur', s)
   match op, args with
   | "plan", [i, st, iv] | "plan1", [i, st, iv] => do
     let i ← i.toNat?; let st ← st.toInt?; let iv ← iv.toInt?
     let m' := m.plan3 i (wrN w (st + off)) (wrN w iv)
-    ret m' cur (summaryN sgn n m' cur)
+    ret m' cur (summaryN sgn tsg n m' cur)
   | "unplan", [i] => do
     let i ← i.toNat?
     let m' := m.unplan i
-    ret m' cur (summaryN sgn n m' cur)
+    ret m' cur (summaryN sgn tsg n m' cur)
   | "exec", [now, rules] => do
     let now ← now.toInt?
     let rules ← parseRules? rules
     let cb ← cbOf? rules
     let nw := wrN w (now + off)
     let r := execLoopN sgn (cbOffN w off cb) nw driverFuel 0 m
-    if r.2.2 then ret r.1 nw ("f=" ++ showFiresN sgn r.2.1 ++ " " ++ summaryN sgn n r.1 nw)
-    else some (.mgrN w sgn off n r.1 nw, "nonterm")
+    if r.2.2 then ret r.1 nw ("f=" ++ showFiresN tsg r.2.1 ++ " " ++ summaryN sgn tsg n r.1 nw)
+    else some (.mgrN w sgn tsg off n r.1 nw, "nonterm")
   | "q", [now] => do
     let now ← now.toInt?
-    some (.mgrN w sgn off n m (wrN w (now + off)), summaryN sgn n m (wrN w (now + off)))
+    some (.mgrN w sgn tsg off n m (wrN w (now + off)), summaryN sgn tsg n m (wrN w (now + off)))
   | _, _ => Option.none
 
 /-- target ids of the delegate harness: plain functions 1..3, member functions 11..13 (objects 1..3),
@@ -322,6 +322,7 @@ def constsLine : String :=
   "long=" ++ tyName 64 true ++ " stimer.start=" ++ tyName 64 true ++ " stimer.interval=" ++ tyName 64 true ++
   " stimer.planed=" ++ tyName 32 true ++ " stimer_finish=" ++ tyName 64 false ++ " stimer_check=" ++ tyName 32 true ++
   " mgr[" ++ mgrTypes 64 true ++ "] i32[" ++ mgrTypes 32 true ++ "] u32[" ++ mgrTypes 32 false ++ "]" ++
+  " u32s[time=" ++ tyName 32 false ++ ",diff=" ++ tyName 32 true ++ ",never=2147483647]" ++
   " default=int64 delegate=" ++ toString (3 * 8)
 
 /-- the scenario the harness runs before `main()`: plan (0,3) and (0,5), `exec(7)`, `minimal_interval(7)`, `empty()`,
@@ -396,11 +397,16 @@ def stepLine (s : St) (line : String) : St × String :=
   | ["reset", "D"] => (.dlg (List.replicate 4 ({} : Dlg).clean), "ok")
   | ["reset", "i", n] | ["reset", "I", n] =>
     match n.toNat? with
-    | some n => (.mgrN 32 true 0 n MgrN.init 0, "ok")
+    | some n => (.mgrN 32 true true 0 n MgrN.init 0, "ok")
+    | Option.none => bad
+  | ["reset", "v", n] | ["reset", "V", n] =>
+    -- timer_spec<uint32_t, int32_t>: unsigned ticks, the elapsed time and the interval are int32_t
+    match n.toNat? with
+    | some n => (.mgrN 32 true false 0 n MgrN.init 0, "ok")
     | Option.none => bad
   | ["reset", "l", n, off] =>
     match n.toNat?, off.toInt? with
-    | some n, some off => (.mgrN 64 true off n MgrN.init (wrN 64 off), "ok")
+    | some n, some off => (.mgrN 64 true true off n MgrN.init (wrN 64 off), "ok")
     | _, _ => bad
   | ["reset", "z", n] =>
     match n.toNat? with
@@ -417,7 +423,7 @@ def stepLine (s : St) (line : String) : St × String :=
     | .mgrW n m cur => (stepMgrW n m cur op args).getD bad
     | .st t => (stepST t op args).getD bad
     | .stW t => (stepSTW t op args).getD bad
-    | .mgrN w sgn off n m cur => (stepMgrN w sgn off n m cur op args).getD bad
+    | .mgrN w sgn tsg off n m cur => (stepMgrN w sgn tsg off n m cur op args).getD bad
     | .dlg sl => (stepDlg sl op args).getD bad
   | _ => bad
 
